@@ -1578,26 +1578,25 @@ func (a *align) Entropy(site int, removegaps bool) (float64, error) {
 		return 1.0, errors.New("site position is outside alignment")
 	}
 
-	// Number of occurences of each different aa/nt
-	occur := make(map[uint8]int)
+	// Number of occurences of each different aa/nt, indexed by character:
+	// the terms are summed in character order, so that the (rounded) result
+	// does not depend on a map iteration order
+	occur := make([]int, 256)
 	total := 0
 	entropy := 0.0
 	for seq := 0; seq < a.NbSequences(); seq++ {
 		s := a.seqs[seq].sequence[site]
 		if s != OTHER && s != POINT && (!removegaps || s != GAP) {
-			nb, ok := occur[s]
-			if !ok {
-				occur[s] = 1
-			} else {
-				occur[s] = nb + 1
-			}
+			occur[s]++
 			total++
 		}
 	}
 
 	for _, v := range occur {
-		proba := float64(v) / float64(total)
-		entropy -= proba * math.Log(proba)
+		if v > 0 {
+			proba := float64(v) / float64(total)
+			entropy -= proba * math.Log(proba)
+		}
 	}
 
 	if total == 0 {
